@@ -142,11 +142,16 @@ def exec (s : St) (t : List String) : St × String :=
     let h : Head := { tok := n tok, epoch := n epoch, members := n members, nameLen := n nameLen }
     let s := { s with heads := ainsert (n g) h s.heads, ngroups := max s.ngroups (n g + 1) }
     (addWelcomes s (n i) (n g) (natsOf kps) (natsOf ws) h, "ok | -")
+  | ["forge", i, g, kp, tmpl, w, epoch, tok, members] =>
+    -- a new MLS group with the id of g and the group data of the forger's own group tmpl
+    let inv : Invite := { rid := some s.nextRid, shape := 0, gid := n g, nid := 100 + n tmpl, nameLen := (head s (n tmpl)).nameLen,
+                          descLen := 3, admins := 1, relays := [1, 2], epoch := n epoch, tok := n tok, members := n members, welcomer := n i }
+    ({ s with welcomes := ainsert (n w) { recipients := [n kp / 2], inv := inv } s.welcomes, nextRid := s.nextRid + 1 }, "ok | -")
   | [op, i, g, arg, ev, ws, epoch, tok, members] =>
     -- invite / commit / rename / remove by a member that is up to date
     let old := head s (n g)
     let h : Head := { tok := n tok, epoch := n epoch, members := n members, nameLen := if op == "rename" then n arg else old.nameLen }
-    let k : Commit := { gid := n g, fromTok := old.tok, toTok := h.tok, toEpoch := h.epoch, members := h.members,
+    let k : Commit := { gid := n g, nid := 100 + n g, fromTok := old.tok, toTok := h.tok, toEpoch := h.epoch, members := h.members,
                         nameLen := h.nameLen, removesMe := false }
     let removed := if op == "remove" then natsOf arg else []
     let s := { s with heads := ainsert (n g) h s.heads, events := ainsert (n ev) { commit := k, removed := removed } s.events }
@@ -179,7 +184,7 @@ def exec (s : St) (t : List String) : St × String :=
     else (s, "bad-op | -")
   | ["probe", j, g, _i] =>
     let s := { s with seq := s.seq + 1 }
-    if canDecrypt (client s (n j)) (n g) (head s (n g)).tok then
+    if canDecrypt (client s (n j)) (n g) (100 + n g) (head s (n g)).tok then
       let s := setClient s (n j) (storeProbe (client s (n j)) (n g) s.seq)
       (s, s!"app | {view s (n j)}")
     else (s, s!"noapp | {view s (n j)}")
